@@ -8,6 +8,7 @@
    judged by the SPEC from those readings. *)
 From BV Require Import Common.Base Common.Hash Model.Merkle Spec.Merkle Gen.Core.
 From BV Require Import Common.Codec Common.Tx Spec.Wire Model.Wire Model.Weight Run.TxVal.
+From BV Require Spec.Check Model.Check.
 
 Definition unconstrained : val := VErr 0.
 Definition bad_args : val := VErr 998.
@@ -180,5 +181,41 @@ Definition run_C15 (op : Z) (args : list val) : val :=
                                          VInt (3 * lenZ (wire_tx_stripped t2) + lenZ (wire_tx t2))])
                  else unconstrained]
       | _, _ => VList [bad_args; unconstrained] end
+  | 10, [bv; impl] =>
+      (* CBlock(nVersion, hashPrevBlock, hashMerkleRoot, nTime, nBits, nNonce, vtx) with the
+         transactions given as VALUES, then [hashMerkleRoot; calc_merkle_root();
+         calc_witness_merkle_root()].  Nothing is read from IMPL: txid / wtxid / has_witness
+         come from the wire model (Model/Check.v block_txvs = Model/Ident.v over Model/Wire.v);
+         the verdict is the reference root over H(stripped wire form) / H(full wire form)
+         (theorems C15_roots_from_wire, C15_constructor_from_wire) *)
+      match block_of_val bv with
+      | Some b =>
+          let h := b_hdr b in
+          let vtx := b_vtx b in
+          let model :=
+            match Model.Check.block_txvs sha256d vtx with
+            | Err e => verr e
+            | Ok txvs =>
+                match cblock_init sha256d (h_prev h) (h_merkle h) txvs with
+                | Err e => verr e
+                | Ok cb => VList [VBytes (cb_hashMerkleRoot cb);
+                                  vres VBytes (calc_merkle_root sha256d (cb_vtx cb));
+                                  vres VBytes (calc_witness_merkle_root sha256d (cb_vtx cb))]
+                end
+            end in
+          VList [model;
+                 if wf_blockb MAX_SIZE b && nonempty vtx then
+                   match spec_root sha256d (map (Spec.Check.txid sha256d) vtx) with
+                   | Some r =>
+                       if bytes_eqb (h_merkle h) (zeros 32) || bytes_eqb (h_merkle h) r then
+                         judge impl (VList [VBytes r; VBytes r;
+                                            if existsb has_witness vtx
+                                            then vopt (spec_witness_root sha256d (map (Spec.Check.wtxid sha256d) vtx))
+                                            else verr NoWitnessData])
+                       else judge impl (verr CheckBlockErr)
+                   | None => bad_args
+                   end
+                 else unconstrained]
+      | None => VList [bad_args; unconstrained] end
   | _, _ => bad_args
   end.
